@@ -1044,5 +1044,68 @@ theorem DefragOK_gap (fwd : Bool) (max : Int) (pre r : List Val) (hp : pre.all n
       · rw [beq_eq_false_iff_ne.mpr (by omega), beq_eq_false_iff_ne.mpr (by omega)]
     simp only [e3, Bool.and_assoc]
 
+/-! ## the tail of `defrag` -/
+
+/-- `finish` never takes its panic branch when `last` comes out of `verifyImplode` -/
+theorem finish_ok (cfg : Cfg) (W : List Val) (hW : SmallLen W.length) (tp : List Bool) (htp : tp.length = W.length)
+    (err : Option Nat) :
+    ∃ m, finish cfg W (wrap64 (lastOf ((W.length : Int) + 1) 1 tp (-1) - 1)) err
+      = .ok ⟨{ cfg with err := err }, W.take m⟩ := by
+  have hsm := small_int hW
+  obtain ⟨h1, h2⟩ := lastOf_bounds W.length hW tp 1 (-1) (by omega) (by omega) (by omega) (by omega)
+  unfold finish
+  split
+  · have e1 : wrap64 (lastOf ((W.length : Int) + 1) 1 tp (-1) - 1) = lastOf ((W.length : Int) + 1) 1 tp (-1) - 1 := by
+      rw [wrap64_eq] <;> omega
+    rw [e1, wrap64_eq (by omega) (by omega)]
+    have : ¬ (lastOf ((W.length : Int) + 1) 1 tp (-1) - 1 + 1 > (W.length : Int) + 1) := by omega
+    simp only [this, ↓reduceIte]
+    exact ⟨_, rfl⟩
+  · exact ⟨W.length, by simp⟩
+
+/-- with a gap below the scan limit: the result is a prefix of what the relocation loop leaves -/
+theorem defrag_gap_take (s : Stk) (hs : SmallLen s.xs.length) (max : Int) (pre r : List Val)
+    (hx : s.xs = pre ++ Val.nil :: r) (hp : pre.all nonNil = true) (hm : ¬ max ≤ (pre.length : Int)) :
+    ∃ m, s.defrag max = .ok ⟨{ s.cfg with err := if s.endBit then some defragErr else none },
+      (walk max pre 1 r (true :: List.replicate s.xs.length false)).1.take m⟩ := by
+  obtain ⟨T', hT1, hT2, hd⟩ := defrag_gap s hs max pre r hx hp
+  rw [hd]
+  simp only [hm, ↓reduceIte]
+  have hwl : (walk max pre 1 r (true :: List.replicate s.xs.length false)).1.length = s.xs.length := by
+    rw [walk_length, hx]; simp; omega
+  have hW : SmallLen (walk max pre 1 r (true :: List.replicate s.xs.length false)).1.length := by rw [hwl]; exact hs
+  obtain ⟨m, hm⟩ := finish_ok s.cfg _ hW (T'.drop 1 ++ [false]) (by
+    rw [hwl]; simp only [List.length_append, List.length_drop, List.length_cons, List.length_nil, hT2]
+    have : 1 ≤ s.xs.length := by rw [hx]; simp; omega
+    omega) (if s.endBit then some defragErr else none)
+  rw [hwl] at hm
+  exact ⟨m, hm⟩
+
+/-- `finish` with an in-range truncation point -/
+theorem finish_eq (cfg : Cfg) (W : List Val) (hW : SmallLen W.length) (l : Int) (err : Option Nat)
+    (h1 : -4611686018427387904 ≤ l) (h2 : l ≤ W.length) :
+    finish cfg W l err = .ok ⟨{ cfg with err := err }, if err = none ∧ 0 ≤ l then W.take l.toNat else W⟩ := by
+  have hsm := small_int hW
+  unfold finish Gen.defrag_trunc
+  cases err with
+  | some e => simp
+  | none =>
+    simp only [Option.isSome_none, Bool.not_false, Bool.true_and, decide_eq_true_eq, true_and]
+    by_cases hl : l ≥ 0
+    · have : ¬ (wrap64 (l + 1) > (W.length : Int) + 1) := by rw [wrap64_eq (by omega) (by omega)]; omega
+      have e : (wrap64 (l + 1) - 1).toNat = l.toNat := by rw [wrap64_eq (by omega) (by omega)]; omega
+      simp only [hl, this, ↓reduceIte, e]
+    · simp only [hl, ↓reduceIte]
+
+theorem all_nonNil_of_any (xs : List Val) (h : xs.any Val.isNil = false) : xs.all nonNil = true := by
+  induction xs with
+  | nil => rfl
+  | cons v r ih =>
+    simp only [List.any_cons, Bool.or_eq_false_iff] at h
+    simp [nonNil, h.1, ih h.2]
+
+theorem all_nonNil_filter (xs : List Val) : (xs.filter nonNil).all nonNil = true := by
+  simp
+
 end Stk
 end Stackage
